@@ -345,6 +345,104 @@ def finish_hook_factory(layout):
     return hook
 
 
+def _merges(a, b, max_switches):
+    """All interleavings of the sequences a and b with at most max_switches changes of side."""
+    out = []
+
+    def rec(i, j, side, sw, acc):
+        if i == len(a) and j == len(b):
+            out.append(acc)
+            return
+        for nxt in (0, 1):
+            if (nxt == 0 and i == len(a)) or (nxt == 1 and j == len(b)):
+                continue
+            s2 = sw + (1 if side is not None and nxt != side else 0)
+            if s2 > max_switches:
+                continue
+            rec(i + (nxt == 0), j + (nxt == 1), nxt, s2, acc + [(nxt, a[i] if nxt == 0 else b[j])])
+    rec(0, 0, None, 0, [])
+    return out
+
+
+def loom_isolation(ctx, exe, scratch, prop, tier):
+    """Differential check with no hand-written expected value: two looms with the same structure, the same process ids and the same
+    thread ids.  Every bounded interleaving of a history of loom A with a history of loom B (thread life events and affinity changes
+    across the two processes of the loom) must be accepted, and the thread and CPU rows of each loom must carry exactly the record
+    sequence that its history gives when it is emulated alone."""
+    one = {"cpus": [(0, 1), (1, 0)], "procs": [{"pid": 100, "threads": [101]}, {"pid": 200, "threads": [201]}]}
+    spec1 = [dict(one, name="A")]
+    spec2 = [dict(one, name="A"), dict(one, name="B")]
+    X = lambda c, tid: ("OHx", i32(c, tid) + i64(0))
+    R = lambda c, tid: ("OAr", i32(c, tid))
+    S = lambda c: ("OAs", i32(c))
+    P, Rs, E, C, W = ("OHp", b""), ("OHr", b""), ("OHe", b""), ("OHc", b""), ("OHw", b"")
+    # (thread 0 = process 100 / tid 101, thread 1 = process 200 / tid 201)
+    hists = [
+        [(0, X(0, 101)), (1, X(1, 201)), (0, R(-1, 201)), (1, P), (1, Rs)],
+        [(0, X(0, 101)), (1, X(-1, 201)), (0, R(1, 201)), (1, E), (0, E)],
+        [(1, X(0, 201)), (0, X(1, 101)), (1, R(-1, 101)), (0, P), (1, S(1))],
+        [(0, X(-1, 101)), (1, X(-1, 201)), (1, R(0, 101)), (0, R(1, 201)), (0, C), (0, P)],
+        [(1, X(1, 201)), (1, P), (0, X(1, 101)), (0, R(0, 201)), (1, W), (1, Rs)],
+    ]
+    pool1 = ServerPool(exe, emusrv.System(spec1).write(scratch.sub("iso1")), ["-l"])
+    pool2 = ServerPool(exe, emusrv.System(spec2).write(scratch.sub("iso2")), ["-l"])
+    KEEP = {1, 2, 3, 4, 6}
+    try:
+        s1 = [pool1.local.streams["loom.A/proc.100/thread.101"], pool1.local.streams["loom.A/proc.200/thread.201"]]
+        s2 = {(l, k): pool2.local.streams["loom.%s/proc.%d/thread.%d" % (l, pid, tid)]
+              for l in "AB" for k, (pid, tid) in enumerate(((100, 101), (200, 201)))}
+
+        def rows_of(lines, loom):
+            """record sequence per row of one loom, in the numbering of the loom emulated alone"""
+            seq = {}
+            for (n, row, tm, ty, val) in lines:
+                if ty not in KEEP:
+                    continue
+                lo, hi = ((1, 2) if n == "thread" else (1, 3)) if loom == "A" else ((3, 4) if n == "thread" else (4, 6))
+                if not lo <= row <= hi:
+                    continue
+                r = row - (lo - 1)
+                if n == "thread" and ty == 6 and loom == "B" and val > 0:
+                    val -= 3
+                seq.setdefault((n, r), []).append((ty, val))
+            return seq
+        alone = []
+        for h in hists:
+            hres, _ = pool1.local.expand([Ev(s1[k], m, p, 1) for (k, (m, p)) in h], [], echo=True)
+            alone.append(rows_of(pool1.local.init_lines + hres["lines"], "A") if hres.get("ok") else None)
+        nrun = 0
+        for ia, ha in enumerate(hists):
+            for ib, hb in enumerate(hists):
+                if alone[ia] is None or alone[ib] is None:
+                    continue
+                for mg in _merges(ha, hb, 2 if tier == "quick" else 4):
+                    evs = [Ev(s2[("AB"[side], k)], m, p, 1) for (side, (k, (m, p))) in mg]
+                    hres, _ = pool2.local.expand(evs, [], echo=True)
+                    nrun += 1
+                    why = None
+                    if not hres.get("ok"):
+                        why = "refused at event %s: %s" % (hres.get("fail_index"), hres.get("msg"))
+                    else:
+                        lines = pool2.local.init_lines + hres["lines"]
+                        for loom, want in (("A", alone[ia]), ("B", alone[ib])):
+                            got = rows_of(lines, loom)
+                            for key in sorted(set(got) | set(want)):
+                                if got.get(key) != want.get(key) and why is None:
+                                    why = "loom %s, %s row %d carries the records %r, alone its history gives %r" % (
+                                        loom, key[0], key[1], got.get(key), want.get(key))
+                    if why:
+                        ctx.violation("two looms with equal process and thread ids, histories %d and %d interleaved %s: %s" % (
+                            ia, ib, "".join("AB"[sd] for sd, _ in mg), why),
+                            {"engine": "E3", "flags": ["-l"], "spec": spec2, "history": [e.line() for e in evs]},
+                            {"kind": "loom-isolation", "histories": [ia, ib]})
+                        break
+        ctx.add(evaluations=nrun, transitions=nrun * 10, traces_validated_against_impl=nrun)
+        ctx.part("loom-isolation", runs=nrun, histories=len(hists), accepted_alone=sum(1 for a in alone if a is not None))
+    finally:
+        pool1.close()
+        pool2.close()
+
+
 def run(prop, tier):
     ctx = Ctx(prop, tier, "model_checking")
     scratch = Scratch(prop)
@@ -406,6 +504,8 @@ def run(prop, tier):
         ctx.assumptions += ["an affinity event the model enables must be accepted (only a remote affinity onto the CPU its target is already on is observed, not judged); events it does not enable are observed; effects and oversubscription are checked",
                             "execute of a dead thread is outside the quantified space",
                             "configurations: <=3 threads, <=2 looms, <=2 physical CPUs per loom"]
+        if not ctx.out_of_time(0.9):
+            loom_isolation(ctx, exe, scratch, prop, tier)
         from checks import soak
         if not ctx.out_of_time(0.9):
             soak.run_for(ctx, build, scratch, prop, tier)
